@@ -56,7 +56,8 @@ type c01ReqSpec struct {
 	token    string
 	ip       net.IP
 	ask      bool
-	verifier int // 0 = none, 1 = truth table, 2 = "digest-like" equality on (user, pass)
+	verifier int    // 0 = none, 1 = truth table, 2 = "digest-like": equality with what the client knows
+	secret   string // verifier 2: the password the client used to compute its response
 }
 
 var c01Actions = []conf.AuthAction{
@@ -81,7 +82,7 @@ var c01PermPaths = []string{
 // request path names: all valid per conf.IsValidPathName (callers validate before authenticating)
 var c01ReqPaths = []string{
 	"cam1", "cam", "cam12", "mycam1", "mycam1x", "xcam1", "cam1x", "live/cam1", "live/cam1/sub", "alive/cam1", "live",
-	"a.b", "axb", "a.bc", "za.b", "teststream", "teststream2", "CAM1", "mic7", "mic7b", "other", "c", "cam1/", "am1",
+	"a.b", "axb", "a.bc", "za.b", "teststream", "teststream2", "CAM1", "mic7", "mic7b", "other", "c", "am1",
 }
 
 var c01Protocols = []Protocol{ProtocolRTSP, ProtocolRTMP, ProtocolHLS, ProtocolWebRTC, ProtocolSRT, ProtocolMoQ}
@@ -259,7 +260,7 @@ func c01ModelUser(u c01UserSpec, r c01ReqSpec, table map[[2]string]bool) c01Verd
 		// the protocol's own verifier (RTSP digest) decides whether the supplied credentials match the configured ones
 		v.cred = table[[2]string{u.user.plain, u.pass.plain}]
 	case r.verifier == 2:
-		v.cred = u.user.plain == r.user && u.pass.plain == r.pass
+		v.cred = u.user.plain == r.user && u.pass.plain == r.secret
 	default:
 		v.cred = c01CredMatches(u.user, r.user) && c01CredMatches(u.pass, r.pass)
 	}
@@ -353,28 +354,32 @@ func c01EdgeIPs(cfg string) []netip.Addr {
 	return out
 }
 
-func c01GenIP(t *rapid.T, label string, target *c01UserSpec) (net.IP, string) {
+func c01IPBytes(t *rapid.T, label string, a netip.Addr) net.IP {
+	// representation: 4-byte, 16-byte (v4-mapped) or 16-byte v6
+	if a.Is4() {
+		if rapid.Bool().Draw(t, label+"ip16") {
+			b := a.As16()
+			return net.IP(b[:])
+		}
+		b := a.As4()
+		return net.IP(b[:])
+	}
+	b := a.As16()
+	return net.IP(b[:])
+}
+
+func c01GenIP(t *rapid.T, label string, target *c01UserSpec) net.IP {
 	var a netip.Addr
-	switch k := rapid.IntRange(0, 9).Draw(t, label+"ipKind"); {
+	switch k := rapid.IntRange(0, 11).Draw(t, label+"ipKind"); {
 	case k == 0:
-		return nil, "nil"
-	case k <= 5 && target != nil && len(target.nets) > 0:
+		return nil
+	case k <= 6 && target != nil && len(target.nets) > 0:
 		n := rapid.SampledFrom(target.nets).Draw(t, label+"ipNet")
 		a = rapid.SampledFrom(c01EdgeIPs(n)).Draw(t, label+"ipEdge")
 	default:
 		a = netip.MustParseAddr(rapid.SampledFrom(c01FixedIPs).Draw(t, label+"ipFixed"))
 	}
-	// representation: 4-byte, 16-byte (v4-mapped) or 16-byte v6
-	if a.Is4() {
-		if rapid.Bool().Draw(t, label+"ip16") {
-			b := a.As16()
-			return net.IP(b[:]), a.String() + "(16B)"
-		}
-		b := a.As4()
-		return net.IP(b[:]), a.String() + "(4B)"
-	}
-	b := a.As16()
-	return net.IP(b[:]), a.String()
+	return c01IPBytes(t, label, a)
 }
 
 func c01GenGuess(t *rapid.T, label string, c *c01CredSpec, other c01CredSpec) string {
@@ -404,60 +409,118 @@ func c01GenGuess(t *rapid.T, label string, c *c01CredSpec, other c01CredSpec) st
 	}
 }
 
+// c01SatisfyingPath returns request path names that the permission grants (by the model's own rule).
+func c01SatisfyingPaths(p c01PermSpec) []string {
+	var out []string
+	if conf.IsValidPathName(p.path) == nil {
+		out = append(out, p.path)
+	}
+	for _, n := range c01ReqPaths {
+		if c01PermGrants(p, p.action, n) {
+			out = append(out, n)
+		}
+	}
+	return out
+}
+
+// c01GenReq draws a request. Three modes: free (everything independent), aimed (each clause biased towards one
+// user entry), and near (every clause satisfies one chosen user entry, then at most one clause is re-drawn):
+// the last one is what puts cases on the decision boundary of a single clause.
 func c01GenReq(t *rapid.T, label string, users []c01UserSpec, digestMode bool) c01ReqSpec {
 	var r c01ReqSpec
 	var target *c01UserSpec
-	if len(users) > 0 && rapid.IntRange(0, 9).Draw(t, label+"aimed") > 0 {
+	mode := rapid.SampledFrom([]string{"free", "aimed", "aimed", "near", "near", "near"}).Draw(t, label+"mode")
+	if len(users) == 0 {
+		mode = "free"
+	}
+	if mode != "free" {
 		target = &users[rapid.IntRange(0, len(users)-1).Draw(t, label+"target")]
+	}
+	defect := ""
+	if mode == "near" {
+		defect = rapid.SampledFrom([]string{"none", "none", "user", "pass", "ip", "perm"}).Draw(t, label+"defect")
 	}
 
 	// action / path
-	if target != nil && len(target.perms) > 0 && rapid.IntRange(0, 4).Draw(t, label+"aimPerm") > 0 {
+	nearPerm := false
+	if mode == "near" && defect != "perm" && len(target.perms) > 0 {
 		p := rapid.SampledFrom(target.perms).Draw(t, label+"perm")
 		r.action = p.action
+		nearPerm = true
 		if c01IsPathAction(p.action) {
-			if conf.IsValidPathName(p.path) == nil && rapid.Bool().Draw(t, label+"samePath") {
-				r.path = p.path
+			if sat := c01SatisfyingPaths(p); len(sat) > 0 {
+				r.path = rapid.SampledFrom(sat).Draw(t, label+"satPath")
 			} else {
-				r.path = rapid.SampledFrom(c01ReqPaths[:len(c01ReqPaths)-2]).Draw(t, label+"path")
+				r.path = rapid.SampledFrom(c01ReqPaths).Draw(t, label+"path")
 			}
 		}
-	} else {
-		r.action = rapid.SampledFrom(c01Actions).Draw(t, label+"action")
-		if c01IsPathAction(r.action) {
-			r.path = rapid.SampledFrom(c01ReqPaths[:len(c01ReqPaths)-2]).Draw(t, label+"path")
+	}
+	if !nearPerm {
+		if target != nil && len(target.perms) > 0 && rapid.IntRange(0, 4).Draw(t, label+"aimPerm") > 0 {
+			p := rapid.SampledFrom(target.perms).Draw(t, label+"perm")
+			r.action = p.action
+			if c01IsPathAction(p.action) {
+				if conf.IsValidPathName(p.path) == nil && rapid.IntRange(0, 3).Draw(t, label+"samePath") == 0 {
+					r.path = p.path
+				} else {
+					r.path = rapid.SampledFrom(c01ReqPaths).Draw(t, label+"path")
+				}
+			}
+		} else {
+			r.action = rapid.SampledFrom(c01Actions).Draw(t, label+"action")
+			if c01IsPathAction(r.action) {
+				r.path = rapid.SampledFrom(c01ReqPaths).Draw(t, label+"path")
+			}
 		}
 	}
 	if r.action == conf.AuthActionPublish || r.action == conf.AuthActionRead {
 		r.proto = rapid.SampledFrom(c01Protocols).Draw(t, label+"proto")
+		if digestMode && rapid.IntRange(0, 2).Draw(t, label+"rtsp") > 0 {
+			r.proto = ProtocolRTSP
+		}
 	}
 
 	// credentials
 	var uc, pc *c01CredSpec
-	if target != nil {
-		uc, pc = &target.user, &target.pass
-	}
 	var ou, op c01CredSpec
 	if target != nil {
+		uc, pc = &target.user, &target.pass
 		ou, op = target.pass, target.user
 	}
-	r.user = c01GenGuess(t, label+"user.", uc, ou)
-	r.pass = c01GenGuess(t, label+"pass.", pc, op)
-	if rapid.IntRange(0, 5).Draw(t, label+"noCreds") == 0 {
+	if mode == "near" && defect != "user" && uc.enc != "any" {
+		r.user = uc.plain
+	} else {
+		r.user = c01GenGuess(t, label+"user.", uc, ou)
+	}
+	if mode == "near" && defect != "pass" && pc.enc != "empty" {
+		r.pass = pc.plain
+	} else {
+		r.pass = c01GenGuess(t, label+"pass.", pc, op)
+	}
+	if mode != "near" && rapid.IntRange(0, 5).Draw(t, label+"noCreds") == 0 {
 		r.user, r.pass = "", ""
 	}
 	if rapid.IntRange(0, 5).Draw(t, label+"hasToken") == 0 {
 		r.token = rapid.SampledFrom([]string{"tok", "alice", "secret"}).Draw(t, label+"token")
 	}
 	r.query = rapid.SampledFrom([]string{"", "", "token=abc", "user=alice&pass=secret", "jwt=x"}).Draw(t, label+"query")
-	r.ip, _ = c01GenIP(t, label, target)
+
+	// client address
+	if mode == "near" && defect != "ip" && len(target.nets) > 0 {
+		n := rapid.SampledFrom(target.nets).Draw(t, label+"inNet")
+		a := c01EdgeIPs(n)[rapid.IntRange(0, 1).Draw(t, label+"inEdge")] // first or last address of the network
+		r.ip = c01IPBytes(t, label, a)
+	} else {
+		r.ip = c01GenIP(t, label, target)
+	}
 	r.ask = rapid.Bool().Draw(t, label+"ask")
 
 	// a custom verifier exists only on RTSP connections with digest enabled, and conf.Validate then
 	// forbids hashed credentials (digestMode ⇒ all users plain)
 	if digestMode && r.proto == ProtocolRTSP {
 		r.verifier = rapid.IntRange(0, 2).Draw(t, label+"verifier")
-		if r.verifier != 0 {
+		r.secret = r.pass
+		if r.verifier != 0 && rapid.Bool().Draw(t, label+"digestHeader") {
 			r.pass = "" // rtsp.Credentials: no password is extracted from a digest Authorization header
 		}
 	}
@@ -497,8 +560,8 @@ func c01DescReq(r c01ReqSpec) string {
 	if r.ip != nil {
 		ip = fmt.Sprintf("%s/%dB", r.ip.String(), len(r.ip))
 	}
-	return fmt.Sprintf("req{%s %q proto=%q user=%q pass=%q token=%q ip=%s ask=%v verifier=%d}",
-		r.action, r.path, r.proto, r.user, r.pass, r.token, ip, r.ask, r.verifier)
+	return fmt.Sprintf("req{%s %q proto=%q user=%q pass=%q token=%q ip=%s ask=%v verifier=%d/%q}",
+		r.action, r.path, r.proto, r.user, r.pass, r.token, ip, r.ask, r.verifier, r.secret)
 }
 
 // ---------------------------------------------------------------------------------------------
@@ -527,7 +590,7 @@ func TestVerifC01PoolSanity(t *testing.T) {
 			t.Fatalf("plain pool entry rejected")
 		}
 	}
-	for _, p := range c01ReqPaths[:len(c01ReqPaths)-2] {
+	for _, p := range c01ReqPaths {
 		if err := conf.IsValidPathName(p); err != nil {
 			t.Fatalf("harness: request path pool contains an invalid name %q", p)
 		}
@@ -607,7 +670,7 @@ func TestVerifC01Internal(t *testing.T) {
 			case 1:
 				req.CustomVerifyFunc = func(eu, ep string) bool { return table[[2]string{eu, ep}] }
 			case 2:
-				ru, rp := r.user, r.pass
+				ru, rp := r.user, r.secret
 				req.CustomVerifyFunc = func(eu, ep string) bool { return eu == ru && ep == rp }
 			}
 			gotUser, aerr := m.Authenticate(req)
